@@ -64,18 +64,25 @@ def showOptSample : Option Sample → String
   | none => "none"
   | some s => showSample s
 
-def parseFilter? (fk tr dt dv : String) : Option (Option DCF) :=
-  if fk = "none" then some none
-  else if fk = "dcf" then
-    match tr.toNat?, dt.toNat?, hexNat? dv 16 with
-    | some tr, some dt, some dv => some (some { trigger := tr, dbType := dt, dbVal := dv })
+def parseFilter? (fk tr dt dv : String) : Option FilterReq :=
+  if fk = "none" then some .none
+  else match tr.toNat?, dt.toNat?, hexNat? dv 16 with
+    | some tr, some dt, some dv =>
+      let f : DCF := { trigger := tr, dbType := dt, dbVal := dv }
+      if fk = "dcf" then some (.dcf f)
+      else if fk = "badtype" then some .otherObject
+      else if fk = "nonobj" then some .notObject
+      else if fk = "nobody" then some (.noBody f)
+      else if fk.startsWith "len" then ((fk.drop 3).toNat?).map (fun n => .sized f n)
+      else none
     | _, _, _ => none
-  else none
 
 def errName : CreateErr → String
   | .unexpected => "BadUnexpectedError"
   | .unsupported => "BadMonitoredItemFilterUnsupported"
   | .deadbandInvalid => "BadDeadbandFilterInvalid"
+  | .notAllowed => "BadFilterNotAllowed"
+  | .decoding => "BadDecodingError"
 
 /-! ### arm tags (which branches of the model an op took; see GUIDE "Arm coverage") -/
 
@@ -157,33 +164,41 @@ def sampleArms (it : Item) (s : Sample) (reported : Bool) : String :=
           else ""
         base ++ s!",{t},{st}" ++ va ++ ts
 
-def filterArms : Option DCF → String
-  | none => "f-none"
-  | some f =>
-    let d := decode64 f.dbVal
-    let tr := if f.trigger > 2 then "f-trigger-bad" else s!"f-trigger{f.trigger}"
-    let ty := if f.dbType = 0 then "f-db-none" else if f.dbType = 1 then "f-db-abs"
-      else if f.dbType = 2 then "f-db-percent" else "f-db-unknown"
-    let dv := if f.dbType = 0 then "" else
-      "," ++ (match d with
-        | .nan => "f-d-nan"
-        | .inf n => if n then "f-d-neginf" else "f-d-posinf"
-        | .fin n m _ => if m = 0 then (if n then "f-d-negzero" else "f-d-zero") else if n then "f-d-negative" else "f-d-positive")
-    tr ++ "," ++ ty ++ dv
+def dcfArms (f : DCF) : String :=
+  let d := decode64 f.dbVal
+  let tr := if f.trigger > 2 then "f-trigger-bad" else s!"f-trigger{f.trigger}"
+  let ty := if f.dbType = 0 then "f-db-none" else if f.dbType = 1 then "f-db-abs"
+    else if f.dbType = 2 then "f-db-percent" else "f-db-unknown"
+  let dv := if f.dbType = 0 then "" else
+    "," ++ (match d with
+      | .nan => "f-d-nan"
+      | .inf n => if n then "f-d-neginf" else "f-d-posinf"
+      | .fin n m _ => if m = 0 then (if n then "f-d-negzero" else "f-d-zero") else if n then "f-d-negative" else "f-d-positive")
+  tr ++ "," ++ ty ++ dv
+
+def filterArms : FilterReq → String
+  | .none => "f-none"
+  | .dcf f => dcfArms f
+  | .otherObject => "f-other-object"
+  | .notObject => "f-not-object"
+  | .noBody _ => "f-no-body"
+  | .sized f len =>
+    (if len < 4 then "f-len-lt4" else if len < 16 then (if len = 15 then "f-len-15" else "f-len-4to14")
+     else if len = 16 then "f-len-16" else "f-len-gt16") ++ "," ++ dcfArms f
 
 def dstep (s : DState) (toks : List String) : DState × String :=
   match toks with
   | ["reset", ttr, fk, tr, dt, dv] =>
     match ttr.toNat?, parseFilter? fk tr dt dv with
     | some ttr, some f =>
-      match create current ttr f with
+      match createReq current ttr f with
       | .ok it => ({ it := some it }, "ok @@ cr-ok," ++ filterArms f)
       | .error e => ({ it := none }, "err " ++ errName e ++ " @@ cr-err-" ++ errName e ++ "," ++ filterArms f)
     | _, _ => ({ it := none }, "bad-op")
   | ["modify", ttr, fk, tr, dt, dv] =>
     match s.it, ttr.toNat?, parseFilter? fk tr dt dv with
     | some it, some ttr, some f =>
-      match modify current it ttr f with
+      match modifyReq current it ttr f with
       | (it, none) => ({ it := some it }, "ok @@ mod-ok," ++ filterArms f)
       | (it, some e) => ({ it := some it }, "err " ++ errName e ++ " @@ mod-err-" ++ errName e ++ "," ++ filterArms f)
     | none, some _, some _ => (s, "err no-item @@ mod-no-item")
